@@ -102,8 +102,8 @@ pub fn check_view(what: &str, v: &DnaStringSlice, m: &[u8], is_rc: bool, salt: u
             return Err(ctx(format!("debug descriptor '{}' does not report '{}' and '{}'", dbg, want_len, want_rc)));
         }
     }
-    let it: Seq = v.iter().collect();
-    let it2: Seq = v.into_iter().collect();
+    let it: Seq = v.iter().take(n + 8).collect();
+    let it2: Seq = v.into_iter().take(n + 8).collect();
     if it != m || it2 != m {
         return Err(ctx("iteration differs".into()));
     }
